@@ -76,7 +76,10 @@ def run(chk):
     p = W.p
     M = ModP(p, "PointJacobi")
     from . import identity
-    identity.rule(chk, W, "R07.6", "C07", [p.func("ellipticcurve:" + q) for q in identity.MULT_FUNCS], 2)
+    from .c06 import identity_operand_rule
+    chk.rule("R06.8", "(shared with C06) identity operands (Z == 0) are recognised by the internal addition and doubling")
+    identity_operand_rule(chk, M, "C07")
+    identity.rule(chk, W, "R07.6", "C07", [p.func("ellipticcurve:" + q) for q in identity.MULT_FUNCS], 1)
     L = lambda n: "src/ecdsa/ellipticcurve.py:%d" % n.lineno
     calls_by_node = {id(c[1]): c for c in M.call_args}
 
@@ -288,7 +291,7 @@ def run(chk):
     # ---------------- R07.5 + shared R06.4
     inloop = {"__mul__", "_mul_precompute", "mul_add", "_naf"}
     ts = [t for t in M.tests if t.func.node.name in inloop]
-    chk.floor("R07.5", "coordinate-valued tests in the multiplication code", len(ts), 8)
+    chk.floor("R07.5", "coordinate-valued tests in the multiplication code", len(ts), 3)
     seen = {}
     for t in ts:
         nm = t.func.node.name
